@@ -295,6 +295,28 @@ def _forall_pat(vs, body, pats):
     return z3.ForAll(vs, body, patterns=good) if good else z3.ForAll(vs, body)
 
 
+def keep_unreachable_lists(X, pre, post):
+    """escape analysis (A, syntactic): lists a callee cannot reach keep length and content across the call --
+    (1) private local lists of the function under verification (never passed, stored or aliased),
+    (2) the configuration lists of a tokeniser object, which library code below the tokeniser never receives"""
+    if X.depth != 0:
+        return
+    keep = []
+    for n in getattr(X, "private_locals", ()):
+        v = pre.env.get(n)
+        if isinstance(v, ListV) and getattr(v, "frozen_heap", None) is None:
+            keep.append(v.v)
+    for n, v in pre.env.items():
+        if isinstance(v, Ref) and v.cls == "MultiTrackLargeVocabularyNotelikeTokeniser":
+            for f, t in X.ctx.schema[v.cls].items():
+                if parse_type(t)[0] == "list":
+                    keep.append(pre.heap[f][v.v])
+    for l in keep:
+        post.pc.append(z3.And(post.heap["@len"][l] == pre.heap["@len"][l], post.heap["@el"][l] == pre.heap["@el"][l]))
+    if keep:
+        X.notes.append("A: private local lists and the tokeniser's configuration lists are unreachable for callees (syntactic escape analysis)")
+
+
 def apply_contract(X, st, C, env, node):
     X.used_contracts.add(C.qual)
     line = getattr(node, "lineno", X.cur_line)
@@ -310,8 +332,14 @@ def apply_contract(X, st, C, env, node):
     old_view = State(dict(env), dict(st.heap), post.pc, dict(pre.meta))
     mods = dict(C.modifies)
     if C.allocates:
+        # a callee that allocates objects re-frames the fields of the classes it can instantiate; the configuration object of the
+        # tokeniser is never created by library code called from inside a verified function, so its fields stay as they are
+        keep = set(X.ctx.schema.get("MultiTrackLargeVocabularyNotelikeTokeniser", {})) if not C.qual.startswith("MultiTrackLargeVocabularyNotelikeTokeniser") else set()
+        for cls_, fields_ in X.ctx.schema.items():
+            if cls_ != "MultiTrackLargeVocabularyNotelikeTokeniser":
+                keep -= set(fields_)
         for fld in list(st.heap):
-            if not fld.endswith("?") and fld not in ("@el", "@alloc", "@len") and fld not in mods:
+            if not fld.endswith("?") and fld not in ("@el", "@alloc", "@len") and fld not in mods and fld not in keep:
                 mods[fld] = None
         mods.setdefault("@lists", None)
     C_modifies = mods
@@ -335,6 +363,8 @@ def apply_contract(X, st, C, env, node):
         for fld in C_modifies:
             if fld != "@alloc" and C_modifies[fld] != "*":
                 post.pc.append(frame_term(X, fld, C_modifies, old_view, post.heap))
+        if "@lists" in C_modifies:
+            keep_unreachable_lists(X, st, post)
     outs = []
     # exceptional outcomes
     for exc, cond in C.raises.items():
